@@ -41,6 +41,24 @@
 (* Part "hist"    training-mode call protocol: memoised q(u) / p(u) are    *)
 (*   dropped at every training-mode call, so an output always reflects the *)
 (*   current parameters.  ClearOnTrainCall = FALSE is the broken variant.  *)
+(* Part "paths"   strategy x distribution x (base strategy of a wrapper) x *)
+(*   CODE PATH of the forward computation: the settings that select another*)
+(*   branch of a strategy's forward (or of the linear algebra below it)    *)
+(*   are part of the configuration space; q(f) is the same Gaussian under  *)
+(*   every one of them (PathInfo states which components a path produces). *)
+(* Part "ehist"   evaluation-mode call protocol.  Evaluation-mode calls    *)
+(*   memoise q(u) / p(u) / the Cholesky factor, and a path may retain its  *)
+(*   own intermediate results; train(), eval() and load_state_dict() drop  *)
+(*   what is memoised.  Histories: a first prediction under the path, then *)
+(*   mode changes, training-mode calls (through the whole forward or       *)
+(*   through an early return), optimizer steps, loads, further predictions *)
+(*   under the path or under the default settings.  Every prediction must  *)
+(*   reflect the CURRENT parameters and the inputs OF THE CALL (two input  *)
+(*   sets alternate).  Variant.reuse / reusex = TRUE (input-independent /  *)
+(*   input-dependent state retained by a path is read back when present    *)
+(*   and dropped only by a training-mode call that runs the whole forward),*)
+(*   Variant.loadclear = FALSE and Variant.modeclear = FALSE are the       *)
+(*   broken variants TLC must reject.                                      *)
 (***************************************************************************)
 EXTENDS LinAlg, TLC
 
@@ -409,13 +427,90 @@ OptStep ==
 
 ObservesCurrent == Part = "hist" => \A e \in 1..Len(out) : out[e].sees = out[e].want
 
+\* ============================== part "paths" ==================================================
+\* Settings that select a different code path of a strategy's forward or of the linear algebra it calls.  The property does not
+\* mention them: q(f) is the closed form under every one.
+\*   default      no setting
+\*   skipvar      skip_posterior_variances(True): only the mean is requested (the covariance may be omitted = returned as zero)
+\*   fastpredvar  fast_pred_var(True)
+\*   cg           max_cholesky_size(0): every solve that is not an explicit Cholesky call runs conjugate gradients (iterative tolerance)
+\*   trace        trace_mode(True): dense tensors instead of lazy operators
+\*   nofast       fast_computations(covar_root_decomposition = False, log_prob = False, solves = False)
+\*   eager        lazily_evaluate_kernels(False)
+Paths == {"default", "skipvar", "fastpredvar", "cg", "trace", "nofast", "eager"}
+PathInfo(p) == [mean |-> TRUE, cov |-> IF p = "skipvar" THEN "optional" ELSE "required",
+                tol  |-> IF p = "cg" THEN "iterative" ELSE "direct"]
+Bases == {"VariationalStrategy", "UnwhitenedVariationalStrategy"}
+ValidPathCell(q) ==
+  /\ (q.strat = "BatchDecoupledVariationalStrategy" => q.dist # "Delta")
+  /\ (q.strat = "GridInterpolationVariationalStrategy" => q.dist # "Delta")
+  /\ (q.strat \in Wrappers => q.base \in Bases)
+  /\ (q.strat = "OrthogonallyDecoupledVariationalStrategy" => q.base = "VariationalStrategy")
+  /\ (q.strat \notin Wrappers \cup {"OrthogonallyDecoupledVariationalStrategy"} => q.base = "none")
+PathCells == {q \in [strat : Strategies, dist : Dists, base : Bases \cup {"none"}, path : Paths] : ValidPathCell(q)}
+
+\* ============================== part "ehist" ==================================================
+\* c = [ver  : version of the parameters,
+\*      mode : "train" / "eval",
+\*      memo : version the memoised q(u) / p(u) / Cholesky factor were computed from (0: nothing memoised),
+\*      aux  : version of the input-independent intermediate result retained by the path of the cell (0: nothing retained),
+\*      auxx : the input set the input-dependent intermediate result retained by the path belongs to (0: nothing retained)]
+\* out = history of observations; the first entry is the first prediction under the path (made by Init) on input set 1.
+\* own = TRUE: the call is made under the path of the cell, FALSE: under the default settings;  xs: which of two input sets is passed.
+\* An observation says which parameter version (sees) and which input set (xsees) the returned q(f) was computed from.
+EObs(a, flag, xs, sees, want, xsees) == [a |-> a, flag |-> flag, xs |-> xs, sees |-> sees, want |-> want, xsees |-> xsees]
+EInit == [ver |-> 1, mode |-> "eval", memo |-> 1, aux |-> 1, auxx |-> 1]
+EOut0 == <<EObs("Predict", TRUE, 1, 1, 1, 1)>>
+ECan  == Part = "ehist" /\ Len(out) < MaxHist
+Predict(own, xs) ==
+  /\ ECan /\ c.mode = "eval"
+  /\ LET m2    == IF c.memo = 0 THEN c.ver ELSE c.memo                      \* memoised in evaluation mode: valid because every change drops it
+         sees  == IF own /\ Variant.reuse /\ c.aux # 0 THEN c.aux ELSE m2     \* intended: a path recomputes what it retains at every call
+         xsees == IF own /\ Variant.reusex /\ c.auxx # 0 THEN c.auxx ELSE xs
+     IN /\ c' = [c EXCEPT !.memo = m2, !.aux = IF own THEN sees ELSE c.aux, !.auxx = IF own THEN xsees ELSE c.auxx]
+        /\ out' = Append(out, EObs("Predict", own, xs, sees, c.ver, xsees))
+ToTrain ==
+  /\ ECan /\ c.mode = "eval"
+  /\ c' = [c EXCEPT !.mode = "train", !.memo = IF Variant.modeclear THEN 0 ELSE c.memo]
+  /\ out' = Append(out, EObs("ToTrain", FALSE, 0, 0, 0, 0))
+ToEval ==
+  /\ ECan /\ c.mode = "train"
+  /\ c' = [c EXCEPT !.mode = "eval", !.memo = IF Variant.modeclear THEN 0 ELSE c.memo]
+  /\ out' = Append(out, EObs("ToEval", FALSE, 0, 0, 0, 0))
+\* a training-mode call on input set 1; short = TRUE: the inputs are the inducing points (a strategy may return q(u) itself before the rest
+\* of forward)
+TrainCall(short) ==
+  /\ ECan /\ c.mode = "train"
+  /\ LET m2 == IF ClearOnTrainCall \/ c.memo = 0 THEN c.ver ELSE c.memo
+         drop == (Variant.reuse \/ Variant.reusex) /\ ~short               \* the broken variants drop what a path retained here only
+     IN /\ c' = [c EXCEPT !.memo = m2, !.aux = IF drop THEN 0 ELSE c.aux, !.auxx = IF drop THEN 0 ELSE c.auxx]
+        /\ out' = Append(out, EObs("TrainCall", short, 1, m2, c.ver, 1))
+\* optimizer.step(): in training mode (a change made in evaluation mode behind the back of the caches is outside the protocol)
+EOptStep ==
+  /\ ECan /\ c.mode = "train"
+  /\ c' = [c EXCEPT !.ver = c.ver + 1]
+  /\ out' = Append(out, EObs("OptStep", FALSE, 0, 0, 0, 0))
+\* load_state_dict(): in either mode
+LoadState ==
+  /\ ECan
+  /\ c' = [c EXCEPT !.ver = c.ver + 1, !.memo = IF Variant.loadclear THEN 0 ELSE c.memo]
+  /\ out' = Append(out, EObs("LoadState", FALSE, 0, 0, 0, 0))
+ENext == \/ \E own \in BOOLEAN, xs \in {1, 2} : Predict(own, xs)
+         \/ \E short \in BOOLEAN : TrainCall(short)
+         \/ ToTrain \/ ToEval \/ EOptStep \/ LoadState
+\* every prediction and every training-mode output reflects the current parameters and the inputs of the call, whatever the path and
+\* whatever was predicted before
+EObservesCurrent == Part = "ehist" => \A e \in 1..Len(out) : out[e].sees = out[e].want /\ out[e].xsees = out[e].xs
+
 \* ============================== the machine ===================================================
 Init ==
   CASE Part = "qf"      -> c \in Instances /\ out = Eval(c)
     [] Part = "mix"     -> c \in Instances /\ out = MixEval(c)
     [] Part = "lattice" -> c \in Cells /\ out = CellOut(c)
     [] Part = "hist"    -> c = HInit /\ out = <<>>
+    [] Part = "paths"   -> c \in PathCells /\ out = PathInfo(c.path)
+    [] Part = "ehist"   -> c = EInit /\ out = EOut0
 
-Next == IF Part = "hist" THEN Forward \/ KL \/ OptStep ELSE UNCHANGED vars
+Next == IF Part = "hist" THEN Forward \/ KL \/ OptStep ELSE IF Part = "ehist" THEN ENext ELSE UNCHANGED vars
 Spec == Init /\ [][Next]_vars
 =============================================================================
